@@ -71,6 +71,52 @@ Section SortFacts.
   Qed.
 End SortFacts.
 
+Section SortFactsDesc.
+  Context {A : Type} (key : A -> N).
+  Let gtb (x y : A) : bool := (key x <? key y)%N.
+  Let ge (x y : A) : Prop := (key y <= key x)%N.
+
+  Lemma sort_insert_perm_d x l : Permutation (sort_insert gtb x l) (x :: l).
+  Proof.
+    induction l as [|y t IH]; cbn [sort_insert]; [reflexivity|].
+    destruct (gtb x y); [|reflexivity]. rewrite IH. apply perm_swap.
+  Qed.
+
+  Lemma stable_sort_perm_d l : Permutation (stable_sort gtb l) l.
+  Proof.
+    induction l as [|x t IH]; cbn [stable_sort]; [reflexivity|].
+    rewrite sort_insert_perm_d. now constructor.
+  Qed.
+
+  Lemma sort_insert_sorted_d x l : StronglySorted ge l -> StronglySorted ge (sort_insert gtb x l).
+  Proof.
+    induction l as [|y t IH]; cbn [sort_insert]; intros Hs.
+    - constructor; constructor.
+    - inversion Hs as [|? ? Hs' Hf]; subst. unfold gtb at 1. destruct (N.ltb_spec (key x) (key y)) as [Hlt|Hge].
+      + constructor; [apply IH; exact Hs'|].
+        rewrite Forall_forall. intros z Hz.
+        apply (Permutation_in _ (sort_insert_perm_d x t)) in Hz. destruct Hz as [<-|Hz].
+        * unfold ge. lia.
+        * rewrite Forall_forall in Hf. now apply Hf.
+      + constructor; [exact Hs|]. constructor; [unfold ge; lia|].
+        eapply Forall_impl; [|exact Hf]. intros z Hz. unfold ge in *. lia.
+  Qed.
+
+  Lemma stable_sort_sorted_d l : StronglySorted ge (stable_sort gtb l).
+  Proof. induction l as [|x t IH]; cbn [stable_sort]; [constructor|apply sort_insert_sorted_d; exact IH]. Qed.
+
+  (* in a list sorted by decreasing key the first element with a property has the largest key among
+     those with it *)
+  Lemma find_sorted_max (P : A -> bool) l x y :
+    StronglySorted ge l -> find P l = Some x -> In y l -> P y = true -> (key y <= key x)%N.
+  Proof.
+    induction l as [|z t IH]; cbn [find]; intros Hs Hf Hin Hp; [discriminate|].
+    inversion Hs as [|? ? Hs' Hfa]; subst. destruct (P z) eqn:Ez.
+    - inversion Hf; subst. destruct Hin as [->|Hin]; [lia|]. rewrite Forall_forall in Hfa. exact (Hfa _ Hin).
+    - destruct Hin as [->|Hin]; [congruence|]. now apply IH.
+  Qed.
+End SortFactsDesc.
+
 Lemma find_some_In {A} (P : A -> bool) l x : find P l = Some x -> In x l /\ P x = true.
 Proof. apply find_some. Qed.
 
@@ -96,7 +142,7 @@ Definition rsub (r r' : rank) : Prop := forall k, rbit r k = true -> rbit r' k =
 Lemma upsert_ranks_ok m b r : ranks_ok m -> rank_ok r -> ranks_ok (upsert_or m b r).
 Proof.
   unfold ranks_ok. induction m as [|[b' r'] t IH]; cbn [upsert_or]; intros Hm Hr.
-  - constructor; [|constructor]. cbn [snd]. apply rank_bitor_assign_ok; [now left|exact Hr].
+  - constructor; [|constructor]. cbn [snd]. apply rank_bitor_assign_ok; [apply rank_ok_nil|exact Hr].
   - inversion Hm; subst. cbn [snd] in *. destruct (box_eqb b b').
     + constructor; [|assumption]. cbn [snd]. now apply rank_bitor_assign_ok.
     + constructor; [assumption|now apply IH].
@@ -109,8 +155,8 @@ Lemma upsert_In m b r b1 r1 : ranks_ok m -> rank_ok r -> In (b1, r1) (upsert_or 
 Proof.
   unfold ranks_ok. induction m as [|[b' r'] t IH]; cbn [upsert_or]; intros Hm Hr Hin.
   - destruct Hin as [Heq|[]]. inversion Heq; subst. right. split; [reflexivity|].
-    split; [apply rank_bitor_assign_ok; [now left|exact Hr]|].
-    intros k Hk. rewrite rbit_bitor_assign in Hk by (try exact Hr; now left). rewrite rbit_nil in Hk. now left.
+    split; [apply rank_bitor_assign_ok; [apply rank_ok_nil|exact Hr]|].
+    intros k Hk. rewrite rbit_bitor_assign in Hk by (try exact Hr; apply rank_ok_nil). rewrite rbit_nil in Hk. now left.
   - inversion Hm as [|? ? Hr' Hm']; subst. cbn [snd] in Hr'. destruct (box_eqb b b') eqn:E.
     + apply box_eqb_eq in E. subst b'. destruct Hin as [Heq|Hin]; [|left; now right].
       inversion Heq; subst. right. split; [reflexivity|]. split; [now apply rank_bitor_assign_ok|].
@@ -139,7 +185,7 @@ Qed.
 Lemma upsert_adds m b r : ranks_ok m -> rank_ok r -> exists r', In (b, r') (upsert_or m b r) /\ rsub r r'.
 Proof.
   unfold ranks_ok. induction m as [|[b' r'] t IH]; cbn [upsert_or]; intros Hm Hr.
-  - eexists. split; [now left|]. intros k Hk. rewrite rbit_bitor_assign by (try exact Hr; now left). now rewrite Hk, orb_true_r.
+  - eexists. split; [now left|]. intros k Hk. rewrite rbit_bitor_assign by (try exact Hr; apply rank_ok_nil). now rewrite Hk, orb_true_r.
   - inversion Hm as [|? ? Hr' Hm']; subst. cbn [snd] in Hr'. destruct (box_eqb b b') eqn:E.
     + apply box_eqb_eq in E. subst b'. eexists. split; [now left|].
       intros k Hk. rewrite rbit_bitor_assign by assumption. now rewrite Hk, orb_true_r.
@@ -252,8 +298,6 @@ Section Overlay.
   Variable U : Z.
   Variable rules : list rule.      (* the rules the overlay loop runs over (after the preflight) *)
   Hypothesis Hwf : Forall (fun r => Forall (wf_box U) (fst r)) rules.
-  Hypothesis Hnonempty : Forall (fun r => fst r <> []) rules.
-  Hypothesis Hn : (length rules <= 64)%nat.
 
   Definition fires (k : nat) (q : point) : Prop :=
     exists r, nth_error rules k = Some r /\ exists c, In c (fst r) /\ in_box U q c.
@@ -299,9 +343,7 @@ Section Overlay.
     Forall (entry_ok (S i)) (overlay_step U reg (rank_new i) old).
   Proof.
     intros Hi Hold. rewrite overlay_step_upserts.
-    assert (Hi64 : (i < 64)%nat).
-    { assert (i < length rules)%nat by (apply nth_error_Some; congruence). lia. }
-    destruct (rank_new_ok i Hi64) as [Hnew_ok _].
+    destruct (rank_new_ok i) as [Hnew_ok _].
     (* every contributed pair is fine on its own *)
     assert (Hc : Forall (entry_ok (S i)) (contribs U reg (rank_new i) old)).
     { unfold contribs. rewrite Forall_forall. intros [b1 r1] Hin.
@@ -315,14 +357,14 @@ Section Overlay.
         destruct (HI _ eq_refl) as [Hwi Hsub]. split; [exact Hwi|]. split; [now apply rank_bitor_ok|].
         cbn [fst snd]. intros k Hk. rewrite rbit_bitor in Hk by assumption. apply orb_true_iff in Hk as [Hk|Hk].
         + destruct (Hbits k Hk) as [Hlt Hf]. split; [lia|]. intros q Hq. apply Hf. now apply Hsub.
-        + rewrite rbit_new in Hk by exact Hi64. apply Nat.eqb_eq in Hk. subst k. split; [lia|].
+        + rewrite rbit_new in Hk. apply Nat.eqb_eq in Hk. subst k. split; [lia|].
           intros q Hq. exists (reg, s). split; [exact Hi|]. exists cb. split; [exact Hcb|]. now apply Hsub.
       - destruct orem as [rb|]; [|destruct Hin]. destruct Hin as [Heq|[]]. inversion Heq; subst.
         destruct (HR _ eq_refl) as [Hwr Hsub]. split; [exact Hwr|]. split; [exact Hrk|].
         cbn [fst snd]. intros k Hk. destruct (Hbits k Hk) as [Hlt Hf]. split; [lia|]. intros q Hq. apply Hf. now apply Hsub. }
     assert (Hcr : Forall (fun e => rank_ok (snd e)) (contribs U reg (rank_new i) old)).
     { eapply Forall_impl; [|exact Hc]. intros e [_ [H _]]. exact H. }
-    assert (Hinit : ranks_ok init_map) by (constructor; [now left|constructor]).
+    assert (Hinit : ranks_ok init_map) by (constructor; [apply rank_ok_nil|constructor]).
     rewrite Forall_forall. intros [b1 r1] Hin.
     destruct (upserts_In _ _ _ _ Hinit Hcr Hin) as [Hok Hbits].
     (* the box is the empty box of init_map or a contributed box *)
@@ -344,18 +386,16 @@ Section Overlay.
     exists b r, In (b, r) m /\ good U lo_edge hi_edge p b /\ forall k, (k < i)%nat -> fires k p -> rbit r k = true.
 
   Lemma step_complete i reg s old :
-    nth_error rules i = Some (reg, s) ->
+    nth_error rules i = Some (reg, s) -> reg <> [] ->
     Forall (entry_ok i) old ->
     complete i old -> complete (S i) (overlay_step U reg (rank_new i) old).
   Proof.
-    intros Hi Hold [b [rk [Hb [Hg Hact]]]]. rewrite overlay_step_upserts.
-    assert (Hi64 : (i < 64)%nat).
-    { assert (i < length rules)%nat by (apply nth_error_Some; congruence). lia. }
-    destruct (rank_new_ok i Hi64) as [Hnew_ok _].
+    intros Hi Hne Hold [b [rk [Hb [Hg Hact]]]]. rewrite overlay_step_upserts.
+    destruct (rank_new_ok i) as [Hnew_ok _].
     pose proof (step_sound i reg s old Hi Hold) as Hsound. rewrite overlay_step_upserts in Hsound.
     rewrite Forall_forall in Hold. destruct (Hold _ Hb) as [Hwb [Hrk Hbits]]. cbn [fst snd] in *.
     pose proof (in_box_dom U p b Hwb (good_in_box U lo_edge hi_edge p b Hg)) as Hd.
-    assert (Hinit : ranks_ok init_map) by (constructor; [now left|constructor]).
+    assert (Hinit : ranks_ok init_map) by (constructor; [apply rank_ok_nil|constructor]).
     assert (Hcr : Forall (fun e => rank_ok (snd e)) (contribs U reg (rank_new i) old)).
     { rewrite Forall_forall. intros [b1 r1] Hin. cbn [snd].
       unfold contribs in Hin. apply in_flat_map in Hin as [[b' rk'] [Hb' Hin]]. apply in_flat_map in Hin as [cb [Hcb Hin]].
@@ -364,8 +404,6 @@ Section Overlay.
       apply in_app_or in Hin as [Hin|Hin].
       - destruct oi; [|destruct Hin]. destruct Hin as [Heq|[]]. inversion Heq; subst. now apply rank_bitor_ok.
       - destruct orem; [|destruct Hin]. destruct Hin as [Heq|[]]. inversion Heq; subst. exact Hrk'. }
-    assert (Hne : reg <> []).
-    { rewrite Forall_forall in Hnonempty. apply nth_error_In in Hi. exact (Hnonempty _ Hi). }
     destruct (existsb (in_boxb p) reg) eqn:Efire.
     - (* the rule fires: the intersection with the witness box carries it *)
       apply existsb_exists in Efire as [cb [Hcb Hpcb]].
@@ -381,7 +419,7 @@ Section Overlay.
       exists ib, r'. split; [exact Hi'|]. split; [exact Hgi|].
       intros k Hk Hf. apply Hs'. rewrite rbit_bitor by assumption.
       destruct (Nat.eq_dec k i) as [->|Hne'].
-      + rewrite rbit_new by exact Hi64. rewrite Nat.eqb_refl. apply orb_true_r.
+      + rewrite rbit_new. rewrite Nat.eqb_refl. apply orb_true_r.
       + rewrite Hact; [reflexivity|lia|exact Hf].
     - (* the rule does not fire: the remainder of its first box keeps the location *)
       destruct reg as [|cb0 regt]; [contradiction|].
@@ -420,10 +458,18 @@ Section Overlay.
         rewrite nth_error_app2 by (rewrite firstn_length; lia). rewrite firstn_length, Nat.min_l by exact Hle.
         now rewrite Nat.sub_diag. }
       assert (Hlt : (i < length rules)%nat) by (apply nth_error_Some; congruence).
-      apply IH.
-      + now apply (skipn_S_tail _ _ _ _ Hsk).
-      + lia.
-      + now apply (step_sound i reg s).
-      + now apply (step_complete i reg s).
+      destruct reg as [|c0 regt].
+      + (* a rule without condition set is skipped: it fires nowhere *)
+        apply IH; [now apply (skipn_S_tail _ _ _ _ Hsk)|lia| |].
+        * eapply Forall_impl; [|exact Hm]. intros e. apply entry_ok_mono. lia.
+        * destruct Hc as [b [r [Hb [Hg Hact]]]]. exists b, r. split; [exact Hb|]. split; [exact Hg|].
+          intros k Hk Hf. destruct (Nat.eq_dec k i) as [->|Hne].
+          -- exfalso. destruct Hf as [r0 [Hr0 [c [Hc _]]]]. rewrite Hi in Hr0. inversion Hr0; subst. destruct Hc.
+          -- apply Hact; [lia|exact Hf].
+      + apply IH.
+        * now apply (skipn_S_tail _ _ _ _ Hsk).
+        * lia.
+        * now apply (step_sound i (c0 :: regt) s).
+        * apply (step_complete i (c0 :: regt) s); try assumption. discriminate.
   Qed.
 End Overlay.
